@@ -316,7 +316,7 @@ func (m *Machine) equal(x, y Value) *smt.Term {
 	case FuncNil:
 		_, ok := y.(FuncNil)
 		return c.Bool(ok)
-	case *ssa.Function, *ClosureV:
+	case *ssa.Function, *ClosureV, NoopFunc:
 		if _, ok := y.(FuncNil); ok {
 			return c.False
 		}
